@@ -4,6 +4,7 @@ import Cicada.Model.Execute
 import Cicada.Model.Subst
 import Cicada.Model.Core
 import Cicada.Model.Alias
+import Cicada.Model.Script
 import Cicada.Spec.C17
 import Cicada.Spec.C03
 import Cicada.Spec.C01
@@ -427,6 +428,29 @@ def answer (stream : String) (f : Array String) : Ans :=
     let okv := !sq && !gt && !emp
     { m := pairsOut sorted1, s := if emp then "-" else pairsOut sortedA, guard := if okv then "1" else "0",
       cls := if okv then "-" else if sq then "list-squote" else if gt then "value-gt" else "outside-statement:empty-value" }
+  | "xpargs" =>
+    let args := if g 1 = "[]" then [] else ((g 1).splitOn ",").map unhex
+    { m := hex (expandArgs args (unhex (g 0))) }
+  | "xpargtok" =>
+    let args := if g 1 = "[]" then [] else ((g 1).splitOn ",").map unhex
+    let t := unhex (g 0)
+    -- the function itself returns the token unchanged when the anchored regex does not match at all
+    { m := hex (expandArgsTok args t) }
+  | "argsin" => { m := if isArgsInToken (unhex (g 0)) then "1" else "0" }
+  | "entry" =>
+    -- does the script path (expand_args) change what the line means?  same list items and same plans
+    let es := envIn (g 0)
+    let line := unhex (g 1)
+    let args := if g 2 = "[]" then [] else ((g 2).splitOn ",").map unhex
+    let plans (l : Str) : List String := (lineToCmds l).map (fun item =>
+      if isListSep item then String.ofList item else outcomeStr planOut (planOf es.subst (planFuel item) item))
+    -- the script path expands each list item's text as a whole line (run_exp -> expand_args -> run_command_line)
+    let viaScript := plans (expandArgs args line)
+    let direct := plans line
+    let same := viaScript == direct
+    let hasEsc := line.contains '\\'
+    { m := if same then "same" else "differs", s := "same", guard := if hasEsc then "0" else "1",
+      cls := if hasEsc then "unquoted-escape" else "-" }
   | "globneeds" =>
     -- which patterns will `expand_glob` hand to the glob crate for this case (f2: line | line1 | tokens)
     let es := envIn (g 0)
